@@ -144,6 +144,25 @@ def check_group(rep, specs, attrs):
             exp = [((tuple(getattr(o, a, f"{a}: n/a") for a in attrs)), id(o)) for o in objs]
             if sorted(flat, key=lambda x: (str(x[0]), x[1])) != sorted(exp, key=lambda x: (str(x[0]), x[1])):
                 why = 'group_by_nested is not the nested version of the same partition'
+        if not why and len(objs) >= 2:
+            # accumulating into an existing grouping (`into=`), list by list: still every element exactly once, in order
+            cut = len(objs) // 2
+            cls = type(l)
+            acc_flat, acc_nested = {}, {}
+            for part in (objs[:cut], objs[cut:]):
+                sub = cls(part)
+                r1 = sub.group_by(list(attrs) if len(attrs) > 1 else attrs[0], into=acc_flat)
+                acc_flat = r1 if r1 is not None else acc_flat
+                r2 = sub.group_by_nested(list(attrs), into=acc_nested)
+                acc_nested = r2 if r2 is not None else acc_nested
+            got = [(k, id(o)) for k, v in acc_flat.items() for o in v]
+            expf = [(key(o), id(o)) for o in objs]
+            if sorted(got, key=lambda x: (str(x[0]), x[1])) != sorted(expf, key=lambda x: (str(x[0]), x[1])):
+                why = 'group_by(..., into=<existing groups>) loses or duplicates elements'
+            flat = []
+            walk(acc_nested, [])
+            if not why and sorted(flat, key=lambda x: (str(x[0]), x[1])) != sorted(exp, key=lambda x: (str(x[0]), x[1])):
+                why = 'group_by_nested(..., into=<existing groups>) loses or duplicates elements'
     if why:
         rep.violation('failing-input', {'op': 'group_by', 'elements': [list(s) for s in specs], 'attrs': list(attrs), 'why': why})
 
